@@ -177,6 +177,17 @@ CLAIMS = {
         note="Not decided: marginals, conditionals, normalisation, zero thresholds (numerical). Known finding F2.",
         technique=TECH + "exact symbolic interpretation (polynomial normal forms, divmod with range reasoning, loop unrolling), "
                          "who-may-compute rule, loop-nest/shape agreement"),
+    "C08": dict(
+        text="Decides the assembly of the forward model: (M1) coefficient matrix and offset vector stack their dictionaries in the same "
+             "sorted (schedule, outcome) order and calc_prob_dists applies A x + b to the variables of the parametrisation in force; (M2) "
+             "every stored coefficient row has its offset stored under the same key in the same branch; (M3) each tomography class reads "
+             "states / POVMs / its unknown from schedule positions its own validator pins to that kind; (M4) operand roles (outer(povm, "
+             "state) row-major; state vector in block m_index; POVM vectors as rows); (M5) offsets and skipped coordinates are those the "
+             "parametrisation implies (d^-1/2 povm[0]; d^1/2 state[0] with the last element substituted; c[0] and c[d^2:]).",
+        note="Not decided: equality of the affine model and the circuit as maps (the property's own method, comparison on an affine "
+             "basis, is execution), full column rank.",
+        technique=TECH + "table/position agreement with the validators' extracted pins, key-pairing of dictionary stores, "
+                         "definition normal forms and d-exponent arithmetic"),
 }
 
 NOT_APPLICABLE = {
